@@ -14,6 +14,102 @@ LEVEL = "other"
 FIT = "pyimpspec.analysis.fitting"
 
 
+class _Params:
+    """Stand-in for lmfit.Parameters: remembers what was added; an expression naming a parameter that has not been added
+    yet raises NameError (as asteval does)."""
+
+    def __init__(self):
+        self.added = {}
+
+    def add(self, name=None, **kw):
+        import re as _re
+        if name is None:
+            raise TypeError("add() missing name")
+        expr = kw.get("expr")
+        if expr is not None:
+            for tok in _re.findall(r"[A-Za-z_]\w*", str(expr)):
+                if tok not in self.added and tok != name:
+                    raise NameError(f"name '{tok}' is not defined")
+        self.added[name] = dict(kw)
+
+    def valuesdict(self):
+        return {k: v.get("value") for k, v in self.added.items()}
+
+
+class _El:
+    def __init__(self, values, lower, upper, fixed):
+        self.v, self.l, self.u, self.f, self.set = values, lower, upper, fixed, []
+
+    def get_values(self): return dict(self.v)
+    def get_lower_limits(self): return dict(self.l)
+    def get_upper_limits(self): return dict(self.u)
+    def are_fixed(self): return dict(self.f)
+    def get_value(self, k): return self.v[k]
+    def get_lower_limit(self, k): return self.l[k]
+    def get_upper_limit(self, k): return self.u[k]
+    def is_fixed(self, k): return self.f[k]
+
+    def set_values(self, *a, **kw):
+        pairs = dict(zip(a[0::2], a[1::2]))
+        pairs.update(kw)
+        self.set.append(pairs)
+        return self
+
+
+def _interp_lmfit(ctx: Ctx, model):
+    """_to_lmfit and _from_lmfit interpreted (sa.miniinterp) with stand-ins for lmfit.Parameters and two elements."""
+    import math
+    from ..miniinterp import ExcValue, InterpRaise, Mini, module_globals
+    tl, fl = model.fi(FIT, "_to_lmfit"), model.fi(FIT, "_from_lmfit")
+    st = {"Parameters": _Params, "inf": math.inf, "FittingError": lambda *a: ExcValue("FittingError", a), "Element": _El, "FitIdentifiers": dict}
+    g = module_globals(ctx.repo.modules[FIT].tree, st)
+    g.update(st)
+
+    def world():
+        a = _El({"R": 5.0, "C": 2e-6}, {"R": 0.0, "C": 1e-9}, {"R": math.inf, "C": 1.0}, {"R": False, "C": True})
+        b = _El({"R": 7.0}, {"R": -math.inf}, {"R": 10.0}, {"R": False})
+        return a, b, {a: {"R": "R_0", "C": "C_0"}, b: {"R": "R_1"}}
+    to_p: List[str] = []
+    a, b, ids = world()
+    try:
+        res = Mini(g, max_steps=100000).call_function(tl.node, {"identifiers": ids, "constraint_expressions": {"R_0": "2 * R_1 + k"}, "constraint_variables": {"k": {"value": 3.0, "min": 0}}})
+        want = {"k": {"value": 3.0, "min": 0}, "C_0": {"value": 2e-6, "min": 1e-9, "max": 1.0, "vary": False}, "R_1": {"value": 7.0, "min": -math.inf, "max": 10.0, "vary": True},
+                "R_0": {"value": 5.0, "min": 0.0, "max": math.inf, "vary": True, "expr": "2 * R_1 + k"}}
+        got = res.added if isinstance(res, _Params) else res
+        if got != want:
+            diff = {k: (got.get(k) if isinstance(got, dict) else got, want[k]) for k in want if not isinstance(got, dict) or got.get(k) != want[k]}
+            to_p.append(f"for two elements with a constraint R_0 = 2*R_1 + k lmfit receives {str(diff)[:260]} (got, expected): every parameter must be added once with its own value, limits, vary = not fixed and its constraint")
+    except InterpRaise as e:
+        to_p.append(f"_to_lmfit raises {e.kind} for a valid circuit with a constraint that refers to a parameter defined later")
+    for label, mutate, exprs, want_kind in (("a value above its upper limit", lambda a_, b_: b_.v.update({"R": 11.0}), {}, "ValueError"), ("a value below its lower limit", lambda a_, b_: a_.v.update({"C": 1e-12}), {}, "ValueError"),
+                                            ("a constraint naming an undefined variable", lambda a_, b_: None, {"R_0": "missing_name * 2"}, "FittingError")):
+        a, b, ids = world()
+        mutate(a, b)
+        try:
+            Mini(g, max_steps=100000).call_function(tl.node, {"identifiers": ids, "constraint_expressions": exprs, "constraint_variables": {}})
+            to_p.append(f"_to_lmfit accepts {label}")
+        except InterpRaise as e:
+            if e.kind != want_kind:
+                to_p.append(f"_to_lmfit raises {e.kind} instead of {want_kind} for {label}")
+    from_p: List[str] = []
+    a, b, ids = world()
+    ps = _Params()
+    for k_, v_ in (("R_0", 1.5), ("C_0", 2.5), ("R_1", 3.5), ("k", 9.0)):
+        ps.add(name=k_, value=v_)
+    try:
+        Mini(g, max_steps=100000).call_function(fl.node, {"parameters": ps, "identifiers": ids})
+        merged_a, merged_b = {}, {}
+        for d in a.set:
+            merged_a.update(d)
+        for d in b.set:
+            merged_b.update(d)
+        if merged_a != {"R": 1.5, "C": 2.5} or merged_b != {"R": 3.5}:
+            from_p.append(f"the elements receive {merged_a} and {merged_b} instead of {{'R': 1.5, 'C': 2.5}} and {{'R': 3.5}}")
+    except InterpRaise as e:
+        from_p.append(f"_from_lmfit raises {e.kind}")
+    return to_p, from_p
+
+
 def check(ctx: Ctx) -> None:
     model = get_model(ctx.repo)
     ctx.modules_consulted.add(FIT)
@@ -26,6 +122,28 @@ def check(ctx: Ctx) -> None:
 
     # ---------------- R12.1 ---------------------------------------------------------
     tl = model.fi(FIT, "_to_lmfit")
+    lm_interpreted = True
+    try:
+        to_p, from_p = _interp_lmfit(ctx, model)
+    except AnalysisError as e:
+        lm_interpreted = False
+        ctx.note(f"_to_lmfit/_from_lmfit not interpretable ({e}); decided from their shape instead")
+    if lm_interpreted:
+        ctx.instance("R12.1", "_to_lmfit interpreted with stand-ins for lmfit.Parameters and two elements: every parameter added once with value/min/max/vary/expr of its own element; out-of-limit values and unsatisfiable constraints refused")
+        if to_p:
+            ctx.violation("R12.1", "_to_lmfit:semantics", FIT, tl.node, "_to_lmfit: " + to_p[0])
+        else:
+            ctx.ok()
+    _r12_rest(ctx, model, tl, lm_interpreted, from_p if lm_interpreted else None)
+
+
+def _r12_rest(ctx: Ctx, model, tl, lm_interpreted: bool, from_p) -> None:
+    if not lm_interpreted:
+        _to_lmfit_shape(ctx, model, tl)
+    _r12_after(ctx, model, lm_interpreted, from_p)
+
+
+def _to_lmfit_shape(ctx: Ctx, model, tl) -> None:
     loop = next((n for n in walk_ordered(tl.node) if isinstance(n, ast.For) and norm(n.iter) == "identifiers.items()"), None)
     if loop is None:
         raise AnalysisError("_to_lmfit: loop over identifiers.items() not found")
@@ -96,6 +214,9 @@ def check(ctx: Ctx) -> None:
     else:
         ctx.violation("R12.1", "_to_lmfit:limit-refusal", FIT, inner, "a parameter value outside [lower, upper] is not refused before the parameter is handed to lmfit")
 
+
+
+def _r12_after(ctx: Ctx, model, lm_interpreted: bool, from_p) -> None:
     # ---------------- R12.2 ---------------------------------------------------------
     fp = model.fi(FIT, "_fit_process")
     unp = unpack_of_param(fp.node, "args")
@@ -244,9 +365,14 @@ def check(ctx: Ctx) -> None:
     fl = model.fi(FIT, "_from_lmfit")
     ctx.instance("R12.5", "_from_lmfit: lookup is the inverse of the identifier map; values written with set_values")
     t = norm(fl.node)
-    if "lookup[key] = (element, symbol)" in t and "for symbol, key in mapping.items()" in t and "element, symbol = lookup[key]" in t \
+    if lm_interpreted:
+        if from_p:
+            ctx.violation("R12.5", "_from_lmfit:lookup", FIT, fl.node, "_from_lmfit must map every lmfit name back to (element, symbol) through the identifiers it was given and write the value with set_values: " + from_p[0])
+        else:
+            ctx.ok()
+    elif "lookup[key] = (element, symbol)" in t and "for symbol, key in mapping.items()" in t and "element, symbol = lookup[key]" in t \
             and "fitted_values[element][symbol] = value" in t and "element.set_values(**values)" in t:
         ctx.ok()
     else:
         ctx.violation("R12.5", "_from_lmfit:lookup", FIT, fl.node, "_from_lmfit must map every lmfit name back to (element, symbol) through the identifiers it was given and write the value with set_values")
-    ctx.sample({"lmfit_kwargs": kws})
+    ctx.sample({"lmfit": "value, min, max, vary = not fixed, expr — per parameter of each element (interpreted)"})
